@@ -86,6 +86,7 @@ func Setup() {
 	fnString = build("string(1)")
 	fnPosition = build("//*[position()]")
 	fnUnboundPfx = build("z:f()")
+	setupShadow()
 }
 
 func genOpts() hx.GenOpts {
@@ -340,4 +341,76 @@ func RunFunctions() {
 	r, err = xsel.Exec(b.Root, fnString, xsel.WithFunction("other", c.fn(ret)))
 	s, ok = r.(xsel.String)
 	nd.Assert(err == nil && ok && s == "1", "fn.builtin-unaffected")
+}
+
+// builtin function names of XPath 1.0 section 4
+var builtins = []string{"last", "position", "count", "id", "local-name", "namespace-uri", "name", "string", "concat",
+	"starts-with", "contains", "substring-before", "substring-after", "substring", "string-length", "normalize-space",
+	"translate", "boolean", "not", "true", "false", "lang", "number", "sum", "floor", "ceiling", "round"}
+
+type shadowForms struct{ top, pred, predSp, filt, cmp, arg, path *xsel.Grammar }
+
+var shadow map[string]*shadowForms
+
+func wrapper(f string) string {
+	if f == "string" {
+		return "normalize-space"
+	}
+	return "string"
+}
+
+func setupShadow() {
+	shadow = map[string]*shadowForms{}
+	for _, f := range builtins {
+		shadow[f] = &shadowForms{
+			top:    build(f + "()"),
+			pred:   build("/descendant::*[" + f + "()]"),
+			predSp: build("/descendant::*[ " + f + " ( ) ]"),
+			filt:   build("(/descendant::*)[" + f + "()]"),
+			cmp:    build("/descendant::*[" + f + "() = 'zz']"),
+			arg:    build(wrapper(f) + "(" + f + "())"),
+			path:   build("/descendant::*/" + f + "()"),
+		}
+	}
+}
+
+// RunShadow: a user function registered under the name of any builtin is
+// called in its place, wherever the call stands.
+func RunShadow() {
+	b := hx.GenOrSkeleton(hx.GenOpts{MaxEvents: 4, MaxDepth: 2, Attrs: 1})
+	nd.Assert(b.TieOK, "store-mirrors-script")
+	nElems := 0
+	for _, n := range b.Doc.Nodes {
+		if n.Kind == spec.Elem {
+			nElems++
+		}
+	}
+	name := builtins[nd.Choice(len(builtins))]
+	f := shadow[name]
+	nd.Reach("shadow")
+	run := func(g *xsel.Grammar, ret xsel.Result) (xsel.Result, error, *call) {
+		c := &call{}
+		r, err := xsel.Exec(b.Root, g, xsel.WithFunction(name, c.fn(ret)))
+		return r, err, c
+	}
+	r, err, c := run(f.top, xsel.String("user"))
+	s, ok := r.(xsel.String)
+	nd.Assert(err == nil && ok && s == "user" && c.n == 1 && len(c.args) == 0, "shadow.top-level:"+name)
+	for k, g := range []*xsel.Grammar{f.pred, f.predSp, f.filt, f.cmp} {
+		id := []string{"predicate", "spaced-predicate", "filter-predicate", "comparison-in-predicate"}[k]
+		r, err, c = run(g, xsel.Bool(false))
+		ns, ok := r.(xsel.NodeSet)
+		nd.Assert(err == nil && ok && len(ns) == 0, "shadow."+id+".user-result-decides:"+name)
+		nd.Assert(c.n == nElems, "shadow."+id+".called-per-candidate:"+name)
+		if k < 3 {
+			r, err, c = run(g, xsel.Bool(true))
+			ns, ok = r.(xsel.NodeSet)
+			nd.Assert(err == nil && ok && len(ns) == nElems && c.n == nElems, "shadow."+id+".true-keeps-all:"+name)
+		}
+	}
+	r, err, c = run(f.arg, xsel.Number(7))
+	s, ok = r.(xsel.String)
+	nd.Assert(err == nil && ok && s == "7" && c.n == 1, "shadow.as-argument:"+name)
+	_, err, c = run(f.path, xsel.String("user"))
+	nd.Assert(nElems == 0 || c.n >= 1, "shadow.in-path.called:"+name)
 }
